@@ -1,7 +1,259 @@
-(* Properties/C09.v — placeholder until the theorems over Model/Core.v are assembled. *)
-From Coq Require Import ZArith List.
+(* Properties/C09.v — word-form search follows the documented procedure (model: Core._find_helper over the find_entries, find_senses, find_synsets queries).
+   [candidates w form pos] = the (pos, forms) buckets proposed by the lemmatizer (or the form itself);
+   [pass] = one query pass over all buckets (exact forms first; the normalized pass only when the first found nothing).
+   Statements only: every theorem is closed by `exact` of a lemma proved under Proofs/, followed by
+   Print Assumptions.  (Statement texts were printed by Coq from the proved lemmas by harness/mkprops.py and are
+   fixed from then on.) *)
+From Coq Require Import String.
+From Coq Require Import ZArith List Bool.
 Import ListNotations.
-Require Import WnV.Base.Sx WnV.Model.Core.
-Example C09_model_present : run_core (L []) = run_core (L []).
-Proof. reflexivity. Qed.
-Print Assumptions C09_model_present.
+Require Import WnV.Base.Sx WnV.Model.Spec WnV.Model.Tables WnV.Model.Query WnV.Model.Core.
+Require Import WnV.Proofs.CoreLemmas WnV.Proofs.QueryFacts WnV.Proofs.ScopeProofs WnV.Proofs.SearchProofs
+        WnV.Proofs.NavProofs WnV.Proofs.RelGeneric WnV.Proofs.RelProofs WnV.Proofs.RelClosureProofs
+        WnV.Proofs.ExpandProofs WnV.Proofs.FrameProofs WnV.Proofs.CoreNonvacuity.
+Local Open Scope Z_scope.
+
+(* ---- shape of the procedure: exact pass over every candidate bucket; only if it is empty and a normalizer is set, one normalized pass; results de-duplicated in first-occurrence order *)
+Theorem C09_find_helper_form :
+  forall (D C : Type) (w : Wordnet) (cls : Wordnet -> D -> C) (key_eqb : C -> C -> bool)
+           (query : list str -> option str -> bool -> list D) (form : str)
+           (pos : option str),
+         _find_helper w cls key_eqb query (Some form) pos =
+         (let first := pass w cls query (fun f : str => f) (candidates w form pos) in
+          dedup key_eqb
+            (if negb (nonempty first) && wn_normalizer w
+             then pass w cls query (normalize w) (candidates w form pos)
+             else first)).
+Proof. exact (@find_helper_form). Qed.
+Print Assumptions C09_find_helper_form.
+
+Theorem C09_find_helper_nodup :
+  forall (D C : Type) (w : Wordnet) (cls : Wordnet -> D -> C) (key_eqb : C -> C -> bool)
+           (query : list str -> option str -> bool -> list D) (form : str)
+           (pos : option str), nodup_by key_eqb (_find_helper w cls key_eqb query (Some form) pos).
+Proof. exact (@find_helper_nodup). Qed.
+Print Assumptions C09_find_helper_nodup.
+
+Theorem C09_find_helper_first_pass :
+  forall (D C : Type) (w : Wordnet) (cls : Wordnet -> D -> C) (key_eqb : C -> C -> bool)
+           (query : list str -> option str -> bool -> list D) (form : str)
+           (pos : option str),
+         pass w cls query (fun f : str => f) (candidates w form pos) <> [] ->
+         _find_helper w cls key_eqb query (Some form) pos =
+         dedup key_eqb (pass w cls query (fun f : str => f) (candidates w form pos)).
+Proof. exact (@find_helper_first_pass). Qed.
+Print Assumptions C09_find_helper_first_pass.
+
+Theorem C09_find_helper_second_pass :
+  forall (D C : Type) (w : Wordnet) (cls : Wordnet -> D -> C) (key_eqb : C -> C -> bool)
+           (query : list str -> option str -> bool -> list D) (form : str)
+           (pos : option str),
+         pass w cls query (fun f : str => f) (candidates w form pos) = [] ->
+         _find_helper w cls key_eqb query (Some form) pos =
+         (if wn_normalizer w
+          then dedup key_eqb (pass w cls query (normalize w) (candidates w form pos))
+          else []).
+Proof. exact (@find_helper_second_pass). Qed.
+Print Assumptions C09_find_helper_second_pass.
+
+(* ---- the candidate buckets: without a lemmatizer the form under the given pos; with one, its proposals (filtered by pos), or the form itself when it proposes nothing *)
+Theorem C09_candidates_no_lemmatizer :
+  forall (w : Wordnet) (form : str) (pos : option str),
+         wn_lemmatizer w = None -> candidates w form pos = [(pos, [form])].
+Proof. exact (@candidates_no_lemmatizer). Qed.
+Print Assumptions C09_candidates_no_lemmatizer.
+
+Theorem C09_candidates_lemmatizer :
+  forall (w : Wordnet) (table : list (str * list (option str * list str)))
+           (form : str) (pos : option str) (p : option str * list str)
+           (ps : list (option str * list str)),
+         wn_lemmatizer w = Some table ->
+         lemmatize table form pos = p :: ps -> candidates w form pos = p :: ps.
+Proof. exact (@candidates_lemmatizer). Qed.
+Print Assumptions C09_candidates_lemmatizer.
+
+Theorem C09_candidates_lemmatizer_nothing :
+  forall (w : Wordnet) (table : list (str * list (option str * list str)))
+           (form : str) (pos : option str),
+         wn_lemmatizer w = Some table ->
+         lemmatize table form pos = [] -> candidates w form pos = [(pos, [form])].
+Proof. exact (@candidates_lemmatizer_nothing). Qed.
+Print Assumptions C09_candidates_lemmatizer_nothing.
+
+(* ---- soundness: every result has a form row matching one of the candidate forms (original or normalized column), of the requested pos, inside the selected lexicons *)
+Theorem C09_words_have_matching_form :
+  forall (d : db) (w : Wordnet) (form : str) (pos : option str) (x : Word),
+         In x (Wordnet_words d w (Some form) pos) ->
+         exists (p : option str) (fs : list str),
+           In (p, fs) (candidates w form pos) /\
+           (truthy p = true -> Some (wd_pos x) = p) /\
+           (fs = [] \/
+            (exists f : form_row,
+               In f (t_forms d) /\
+               fm_entry_rowid f = wd__id x /\
+               matched w
+                 (pass w mk_Word (words_query d w) (fun f0 : str => f0) (candidates w form pos) = [])
+                 fs f)).
+Proof. exact (@words_have_matching_form). Qed.
+Print Assumptions C09_words_have_matching_form.
+
+Theorem C09_senses_have_matching_form :
+  forall (d : db) (w : Wordnet) (form : str) (pos : option str) (x : Sense),
+         In x (Wordnet_senses d w (Some form) pos) ->
+         exists (p : option str) (fs : list str) (s : sense_row) (e : entry_row),
+           In (p, fs) (candidates w form pos) /\
+           In s (t_senses d) /\
+           se_rowid s = sn__id x /\
+           find_by en_rowid (se_entry_rowid s) (t_entries d) = Some e /\
+           (truthy p = true -> Some (en_pos e) = p) /\
+           (fs = [] \/
+            (exists f : form_row,
+               In f (t_forms d) /\
+               fm_entry_rowid f = se_entry_rowid s /\
+               matched w
+                 (pass w mk_Sense (senses_query d w) (fun f0 : str => f0) (candidates w form pos) =
+                  []) fs f)).
+Proof. exact (@senses_have_matching_form). Qed.
+Print Assumptions C09_senses_have_matching_form.
+
+Theorem C09_synsets_have_matching_form :
+  forall (d : db) (w : Wordnet) (form : str) (pos ili : option str) (x : Synset),
+         In x (Wordnet_synsets d w (Some form) pos ili) ->
+         exists (p : option str) (fs : list str) (ss : synset_row),
+           In (p, fs) (candidates w form pos) /\
+           In ss (t_synsets d) /\
+           sy_rowid ss = ss__id x /\
+           (truthy p = true -> sy_pos ss = p) /\
+           (fs = [] \/
+            (exists (f : form_row) (_s : sense_row),
+               In f (t_forms d) /\
+               In _s (t_senses d) /\
+               se_entry_rowid _s = fm_entry_rowid f /\
+               find_by sy_rowid (se_synset_rowid _s) (t_synsets d) = Some ss /\
+               matched w
+                 (pass w mk_Synset (synsets_query d w ili) (fun f0 : str => f0)
+                    (candidates w form pos) = []) fs f)).
+Proof. exact (@synsets_have_matching_form). Qed.
+Print Assumptions C09_synsets_have_matching_form.
+
+(* ---- completeness of one query pass: an entry/sense/synset of the selection with a matching form is returned *)
+Theorem C09_words_complete :
+  forall (d : db) (w : Wordnet) (query : str) (pos : option str) (e : entry_row)
+           (f : form_row),
+         db_ok d = true ->
+         wn_lemmatizer w = None ->
+         In e (t_entries d) ->
+         in_selection w (en_lexicon_rowid e) ->
+         pos_allows pos (Some (en_pos e)) ->
+         In f (t_forms d) ->
+         fm_entry_rowid f = en_rowid e ->
+         fm_form f = query ->
+         wn_search_all_forms w = true \/ fm_rank f = Some 0 ->
+         exists x : Word, In x (Wordnet_words d w (Some query) pos) /\ wd__id x = en_rowid e.
+Proof. exact (@words_complete). Qed.
+Print Assumptions C09_words_complete.
+
+Theorem C09_senses_complete :
+  forall (d : db) (w : Wordnet) (query : str) (pos : option str) (s : sense_row)
+           (e : entry_row) (ss : synset_row) (f : form_row),
+         db_ok d = true ->
+         wn_lemmatizer w = None ->
+         In s (t_senses d) ->
+         in_selection w (se_lexicon_rowid s) ->
+         find_by en_rowid (se_entry_rowid s) (t_entries d) = Some e ->
+         find_by sy_rowid (se_synset_rowid s) (t_synsets d) = Some ss ->
+         pos_allows pos (Some (en_pos e)) ->
+         In f (t_forms d) ->
+         fm_entry_rowid f = se_entry_rowid s ->
+         fm_form f = query ->
+         wn_search_all_forms w = true \/ fm_rank f = Some 0 ->
+         exists x : Sense, In x (Wordnet_senses d w (Some query) pos) /\ sn__id x = se_rowid s.
+Proof. exact (@senses_complete). Qed.
+Print Assumptions C09_senses_complete.
+
+Theorem C09_synsets_complete :
+  forall (d : db) (w : Wordnet) (query : str) (pos : option str) (ss : synset_row)
+           (_s : sense_row) (f : form_row),
+         db_ok d = true ->
+         wn_lemmatizer w = None ->
+         In ss (t_synsets d) ->
+         in_selection w (sy_lexicon_rowid ss) ->
+         pos_allows pos (sy_pos ss) ->
+         In _s (t_senses d) ->
+         find_by sy_rowid (se_synset_rowid _s) (t_synsets d) = Some ss ->
+         In f (t_forms d) ->
+         fm_entry_rowid f = se_entry_rowid _s ->
+         fm_form f = query ->
+         wn_search_all_forms w = true \/ fm_rank f = Some 0 ->
+         exists x : Synset,
+           In x (Wordnet_synsets d w (Some query) pos None) /\ ss__id x = sy_rowid ss.
+Proof. exact (@synsets_complete). Qed.
+Print Assumptions C09_synsets_complete.
+
+(* ---- the underlying queries, characterised row by row *)
+Theorem C09_find_entries_sound :
+  forall (d : db) (id : option str) (forms : list str) (pos : option str)
+           (ids : list Z) (norm saf : bool) (w : q_word),
+         In w (find_entries d id forms pos ids norm saf) ->
+         (exists e : entry_row,
+            In e (t_entries d) /\
+            word_of_entry e w /\ entry_cond d id forms pos ids norm saf e = true) /\
+         qw_forms w <> [] /\
+         (forall qf : q_form,
+          In qf (qw_forms w) ->
+          exists f : form_row,
+            In f (t_forms d) /\ fm_entry_rowid f = qw_rowid w /\ qf = form_columns f).
+Proof. exact (@find_entries_sound). Qed.
+Print Assumptions C09_find_entries_sound.
+
+Theorem C09_find_entries_complete :
+  forall (d : db) (id : option str) (forms : list str) (pos : option str)
+           (ids : list Z) (norm saf : bool) (e : entry_row) (f : form_row),
+         In e (t_entries d) ->
+         entry_cond d id forms pos ids norm saf e = true ->
+         In f (t_forms d) ->
+         fm_entry_rowid f = en_rowid e ->
+         exists w : q_word,
+           In w (find_entries d id forms pos ids norm saf) /\
+           word_of_entry e w /\ In (form_columns f) (qw_forms w).
+Proof. exact (@find_entries_complete). Qed.
+Print Assumptions C09_find_entries_complete.
+
+Theorem C09_find_senses_iff :
+  forall (d : db) (id : option str) (forms : list str) (pos : option str)
+           (ids : list Z) (norm saf : bool) (q : q_sense),
+         In q (find_senses d id forms pos ids norm saf) <->
+         (exists (s : sense_row) (e : entry_row) (ss : synset_row),
+            In s (t_senses d) /\
+            sense_columns d s = Some (q, e, ss) /\ sense_cond d id forms pos ids norm saf s e = true).
+Proof. exact (@find_senses_iff). Qed.
+Print Assumptions C09_find_senses_iff.
+
+Theorem C09_find_synsets_iff :
+  forall (d : db) (id : option str) (forms : list str) (pos ili : option str)
+           (ids : list Z) (norm saf : bool) (q : q_synset),
+         In q (find_synsets d id forms pos ili ids norm saf) <->
+         (exists ss : synset_row,
+            In ss (t_synsets d) /\
+            q = synset_columns d ss /\
+            synset_conditions d id pos ili ids ss = true /\
+            (forms <> [] ->
+             exists (f : form_row) (_s : sense_row),
+               In f (matching_forms d forms norm saf) /\
+               In _s (t_senses d) /\
+               se_entry_rowid _s = fm_entry_rowid f /\
+               find_by sy_rowid (se_synset_rowid _s) (t_synsets d) = Some ss)).
+Proof. exact (@find_synsets_iff). Qed.
+Print Assumptions C09_find_synsets_iff.
+
+(* ---- non-vacuity *)
+Theorem C09_db_ok_sample_1 :
+  db_ok sample_db_1 = true.
+Proof. exact (@db_ok_sample_1). Qed.
+Print Assumptions C09_db_ok_sample_1.
+
+Theorem C09_db_ok_fuzz :
+  db_ok sample_db_fuzz = true.
+Proof. exact (@db_ok_fuzz). Qed.
+Print Assumptions C09_db_ok_fuzz.
+
